@@ -1,15 +1,11 @@
 (** C05 obligations over data translated from /repo's current source
     (Generated/DictKeys.v is rewritten by harness/cmd/translate on every run):
     the key types of tlb.Hashmap — every type with FixedSize/Equal/Compare in
-    tlb/integers.go and tlb/address.go. *)
+    tlb/integers.go and tlb/address.go (UintN, IntN, BitsN, AddressWithWorkchain). *)
 From Coq Require Import List NArith Arith Bool String.
 From Tongo Require Import Lib.Bits Spec.Dict Generated.DictKeys.
 Import ListNotations.
 Local Open Scope string_scope.
-
-(* key types with a recorded finding (known_findings.txt, C05_address_key_refuted):
-   not checked here, so that an upstream repair is not an alarm *)
-Definition known_bad_key_types : list string := ["AddressWithWorkchain"].
 
 Definition kt_name (t : string * (N * (N * (N * (bool * bool))))) := fst t.
 Definition kt_fixed (t : string * (N * (N * (N * (bool * bool))))) := fst (snd t).
@@ -18,21 +14,26 @@ Definition kt_dec (t : string * (N * (N * (N * (bool * bool))))) := fst (snd (sn
 Definition kt_write_int (t : string * (N * (N * (N * (bool * bool))))) := fst (snd (snd (snd (snd t)))).
 Definition kt_native_signed (t : string * (N * (N * (N * (bool * bool))))) := snd (snd (snd (snd (snd t)))).
 
-Definition checked_key_types :=
-  filter (fun t => negb (existsb (String.eqb (kt_name t)) known_bad_key_types)) dict_key_types.
+Definition casts_unsigned (t : string * (N * (N * (N * (bool * bool))))) : bool :=
+  existsb (String.eqb (kt_name t)) dict_key_compare_casts_unsigned.
 
 (** Every key type marshals to exactly FixedSize() bits and unmarshals from
     exactly FixedSize() bits: the premise [keys_len n] of the C05 theorems holds
-    for the BitStrings Hashmap.MarshalTLB hands to encodeMap. *)
+    for the BitStrings Hashmap.MarshalTLB hands to the sort and to encodeMap.
+    (Before "fix: AddressWithWorkchain.MarshalTLB" this failed with 288 / 264 / 288.) *)
 Theorem C05_gen_key_widths :
   forallb (fun t => (0 <? kt_fixed t)%N && (kt_fixed t =? kt_enc t)%N && (kt_fixed t =? kt_dec t)%N)
-          checked_key_types = true.
+          dict_key_types = true.
 Proof. vm_compute. reflexivity. Qed.
 
-(** Compare is the native < of a signed Go integer exactly for the keys written
-    in two's complement: [signed_ltb] for those, [bits_ltb] for all others. *)
+(** Compare is a strict total order of one of the two kinds the theorems are
+    instantiated with: a key written in two's complement is compared either by
+    the native < of a signed Go integer ([signed_ltb], C05_key_int) or after a
+    conversion to an unsigned type ([bits_ltb], C05_key_address); every other
+    key is compared unsigned / bytewise ([bits_ltb], C05_key_uint, C05_key_bytes). *)
 Theorem C05_gen_compare_matches_encoding :
-  forallb (fun t => Bool.eqb (kt_write_int t) (kt_native_signed t)) checked_key_types = true.
+  forallb (fun t => if kt_native_signed t then kt_write_int t && negb (casts_unsigned t)
+                    else negb (kt_write_int t) || casts_unsigned t) dict_key_types = true.
 Proof. vm_compute. reflexivity. Qed.
 
 (** Every key width leaves room for values of up to 499 bits in a leaf cell
@@ -40,13 +41,16 @@ Proof. vm_compute. reflexivity. Qed.
 Theorem C05_gen_cells_fit :
   forallb (fun t => let n := N.to_nat (kt_fixed t) in
                     (Nat.max 16 (2 + lim_width n + n) + 499 <=? 1023)%nat)
-          checked_key_types = true.
+          dict_key_types = true.
 Proof. vm_compute. reflexivity. Qed.
 
-(** The list is not empty by accident: Uint1..64, Int1..64 and the 8 BitsN. *)
+(** The list is not empty by accident: Uint1..64, Int1..64, the 8 BitsN and the
+    address key with its 288 bits. *)
 Theorem C05_gen_key_types_present :
-  (136 <=? List.length checked_key_types)%nat = true /\
-  forallb (fun nm => existsb (fun t => String.eqb (kt_name t) nm) checked_key_types)
+  (137 <=? List.length dict_key_types)%nat = true /\
+  forallb (fun nm => existsb (fun t => String.eqb (kt_name t) nm) dict_key_types)
           ["Uint1"; "Uint8"; "Uint32"; "Uint64"; "Int1"; "Int8"; "Int32"; "Int64";
-           "Bits80"; "Bits96"; "Bits256"; "Bits512"] = true.
-Proof. vm_compute. split; reflexivity. Qed.
+           "Bits80"; "Bits96"; "Bits256"; "Bits512"; "AddressWithWorkchain"] = true /\
+  existsb (fun t => String.eqb (kt_name t) "AddressWithWorkchain" && (kt_fixed t =? 288)%N)
+          dict_key_types = true.
+Proof. vm_compute. repeat split; reflexivity. Qed.
